@@ -124,9 +124,14 @@ func MuxScenarios(thorough bool) []MuxScenario {
 		MuxScenario{Name: "fix-failing-tables", Period: 40, Setup: setupA, Alpha: []MOp{opTables, opPcrX, opPcrA}, Depth: fixDepth, Dedup: true},
 		MuxScenario{Name: "fix-noroom-p2", Period: 2, Setup: setupA, Alpha: []MOp{opDataAnor, opDataA1, opTables}, Depth: -1, Dedup: true},
 		MuxScenario{Name: "fix-add-remove", Period: 40, Setup: setupA, Alpha: []MOp{opAddB, opRmB, opTables}, Depth: -1, Dedup: true},
-		MuxScenario{Name: "fix-oversize", Period: 2, Setup: setupA, Alpha: []MOp{opAddMany, opRmMany, opTables, opDataA1}, Depth: fixDepth, Dedup: true},
 		MuxScenario{Name: "fix-readd-p1", Period: 1, Setup: setupA, Alpha: []MOp{opRmA, opAddA, opDataA1}, Depth: fixDepth, Dedup: true},
 	)
+	// the oversize closure is large (millions of states): depth-bounded in both tiers, placed last
+	overDepth := 9
+	if thorough {
+		overDepth = 16
+	}
+	sc = append(sc, MuxScenario{Name: "fix-oversize", Period: 2, Setup: setupA, Alpha: []MOp{opAddMany, opRmMany, opTables, opDataA1}, Depth: overDepth, Dedup: true})
 	return sc
 }
 
